@@ -498,6 +498,62 @@ func init() {
 						}
 					}
 					rec(0, make([]bool, n))
+				case "strip_envelope":
+					// the signed envelope removed: the payload alone, decoded or not, in every encoding the decoder might take
+					name0 := A.cookies[0][0]
+					forms := []string{f[0], f[0] + "|", f[0] + "||", f[0] + "|" + f[1], f[0] + "|" + f[1] + "|", "|" + f[1] + "|" + f[2]}
+					if rawv, err := base64.URLEncoding.DecodeString(f[0]); err == nil {
+						forms = append(forms, string(rawv), string(rawv)+"|"+f[1]+"|"+f[2], base64.StdEncoding.EncodeToString(rawv), base64.RawURLEncoding.EncodeToString(rawv),
+							base64.RawStdEncoding.EncodeToString(rawv), hex.EncodeToString(rawv))
+						if tp := strings.Split(string(rawv), "."); len(tp) == 3 {
+							// ticket: v2.<id>.<secret> -> the pre-v2 spelling <id>.<secret>
+							if id, err := base64.RawURLEncoding.DecodeString(tp[1]); err == nil {
+								forms = append(forms, string(id)+"."+tp[2], "v1."+tp[1]+"."+tp[2], "v2."+string(id)+"."+tp[2])
+							}
+						}
+					}
+					for _, v := range forms {
+						try(name0 + "=" + v)
+					}
+				case "planted":
+					// a cookie the attacker put into the browser BEFORE the session was saved: a hand-made ticket / payload, unsigned or
+					// signed with a key of their own.  After the save it must not load anything.
+					name0 := A.cookies[0][0]
+					tid := make([]byte, 16)
+					tsec := make([]byte, 16)
+					rng.Read(tid)
+					rng.Read(tsec)
+					id := name0 + "-" + hex.EncodeToString(tid)
+					hand := []string{
+						"v2." + base64.RawURLEncoding.EncodeToString([]byte(id)) + "." + base64.RawURLEncoding.EncodeToString(tsec),
+						id + "." + base64.RawURLEncoding.EncodeToString(tsec),
+					}
+					var planted []string
+					for _, h := range hand {
+						planted = append(planted, h)
+						for _, other := range []string{"another-secret-another-secret-xx", ""} {
+							if v, err := encryption.SignedValue(other, name0, []byte(h), time.Now()); err == nil {
+								planted = append(planted, v)
+							}
+						}
+					}
+					for _, pv := range planted {
+						if A.csrf != nil {
+							try(name0 + "=" + pv)
+							continue
+						}
+						j := vpNewJar()
+						j.applyCookie(&http.Cookie{Name: name0, Value: pv, Path: "/"})
+						victim := vpMkSession(7, 200, rng)
+						if _, _, err := w.saveVia(j, victim); err != nil {
+							continue
+						}
+						try(name0 + "=" + pv)
+						// (control) what the save handed out must load: otherwise this instance tested nothing
+						if got, err := w.proxy.sessionStore.Load(w.storeReq(j)); err != nil || !vpSessionsEqual(got, victim) {
+							instances--
+						}
+					}
 				case "parts_recombine":
 					if len(B.cookies) == len(A.cookies) {
 						for mask := 1; mask < (1<<len(A.cookies))-1; mask++ {
